@@ -38,7 +38,7 @@ func genCase(t *rapid.T) Case {
 	classes := rapid.SampledFrom([]int{
 		gen.SmallInt, gen.SmallInt, gen.Moderate, gen.Big200, gen.SmallInt | gen.Big200, gen.SmallInt | gen.Moderate | gen.Zeros,
 	}).Draw(t, "classes")
-	o := gen.TreeOpts{Layouts: layouts, Kinds: gen.SevenKinds, Floats: classes, MaxParts: 4, MaxPts: 6, PEmpty: 25}
+	o := gen.TreeOpts{Layouts: layouts, Kinds: kinds, Floats: classes, MaxParts: 4, MaxPts: 6, PEmpty: 25}
 	g := gen.Tree(t, o)
 	// optional large common offset on X,Y for small shapes
 	if classes == gen.SmallInt && rapid.IntRange(0, 2).Draw(t, "offset") == 0 {
@@ -341,3 +341,11 @@ func TestRegress(t *testing.T)     { run.Regress(t, spec) }
 func TestReplay(t *testing.T)      { run.ReplayOne(t, spec) }
 
 func evMax(name string, v float64) { ev.Default.MaxOf(name, v) }
+
+// multi-part kinds are drawn three times as often as the single-part ones
+var kinds = []string{
+	model.MultiPolygon, model.MultiPolygon, model.MultiPolygon, model.MultiPolygon,
+	model.MultiLineString, model.MultiLineString, model.MultiLineString,
+	model.Polygon, model.Polygon, model.Polygon,
+	model.LinearRing, model.MultiPoint, model.LineString, model.Point,
+}
